@@ -115,6 +115,7 @@ pub fn execute(plan: &Plan, choices: Option<Vec<u32>>, record: bool, props: &[St
     faults.insert("clock_jump".to_string(), out.counters.clock_jumps);
     faults.insert("wall_clock_stepped_back".to_string(), out.counters.wall_steps_back);
     faults.insert("wall_clock_alone_stepped_forward".to_string(), out.counters.wall_steps_fwd);
+    faults.insert("clock_moved_past_spinning_tasks_to_a_sleeper".to_string(), out.counters.spin_advances);
     faults.insert("stall_skips".to_string(), out.counters.stall_skips);
     faults.insert("worker_stalled_right_after_receiving".to_string(), out.counters.stalls_after_recv);
     faults.insert("task_stalled_in_virtual_time".to_string(), out.counters.vstalls);
